@@ -121,10 +121,18 @@ Proof.
     - apply NoDup_filter. exact Hcv. }
   rewrite (init_eq stv _ Hstv).
   assert (Hsub : wft (mk_term stv 0)) by (apply wft_mk_term; exact Hstv).
-  rewrite (map_m_ret _ (fun el => term_substitute_variable (term_copy el) v0 (mk_term stv 0))).
-  2:{ intros el Hel. rewrite ?H0, bind_ret_l.
-      assert (Hwe : wft el) by (rewrite Forall_forall in Hctx; apply Hctx; exact Hel).
-      rewrite (copy_eq el Hwe). apply substitute_variable_eq'; [apply wft'_copy; exact Hwe|exact Hsub]. }
+  (* the substituted context: a comprehension (map_m) or an explicit loop with append *)
+  first
+  [ rewrite (map_m_ret _ (fun el => term_substitute_variable (term_copy el) v0 (mk_term stv 0)));
+    [| intros el Hel; rewrite ?H0, bind_ret_l;
+       assert (Hwe : wft el) by (rewrite Forall_forall in Hctx; apply Hctx; exact Hel);
+       rewrite (copy_eq el Hwe); apply substitute_variable_eq'; [apply wft'_copy; exact Hwe|exact Hsub] ]
+  | rewrite (loop_m_append_ret (fun el => term_substitute_variable (term_copy el) v0 (mk_term stv 0)));
+    [ cbn [app]
+    | intros acc_ el Hel; rewrite ?H0, bind_ret_l;
+      assert (Hwe : wft el) by (rewrite Forall_forall in Hctx; apply Hctx; exact Hel);
+      rewrite (copy_eq el Hwe);
+      rewrite (substitute_variable_eq' (term_copy el) v0 (mk_term stv 0) (wft'_copy el Hwe) Hsub); reflexivity ] ].
   rewrite bind_ret_l, termlist_init_eq, ?H0, bind_ret_l. cbn [opt_list].
   rewrite tactic_1_closed.
   - unfold set_variables.
